@@ -6,6 +6,13 @@
 (* of SwitchLabel and the traversal properties.                            *)
 (*  {"ev":"build","n":N,"f":[..],"r":[..],"err":B,"fwd":[..],"ret":[..]}  *)
 (*  {"ev":"rotate","before":[..],"recv":N,"label":N,"after":[..],"want":N} *)
+(*    optional field "outside":N of a rotate event - frames whose block is *)
+(*    rotated by a switch after the router did other things to the frame   *)
+(*    (appendix attached / frame moved to a bigger pooled buffer / cloned  *)
+(*    / parsed again / frame object re-used): before and after are the     *)
+(*    block on the wire, outside is the number of bytes the driver saw     *)
+(*    change that do not belong to the block the frame carries (rest of    *)
+(*    the frame, the buffer the frame left, the clone set aside).          *)
 (*  {"ev":"reverse","before":[..],"after":[..],"want":[..]}                *)
 (*  {"ev":"arrive","n":N,"f":[..],"r":[..],"dir":"fwd"|"ret","block":[..]} *)
 (*    the block a frame carried when the switch of the router at the far   *)
@@ -31,6 +38,7 @@ Rot == /\ Ev.ev = "rotate"
              /\ r.next = Ev.label
              /\ r.blk = Ev.after
              /\ Ev.label = Ev.want                             \* labels come out in path order
+             /\ ("outside" \in DOMAIN Ev) => Ev.outside = 0     \* no byte outside the block is touched
 Revs == /\ Ev.ev = "reverse"
         /\ ToReturn(Ev.before) = Ev.after
         /\ Ev.after = Ev.want                                   \* equals the path's other block
